@@ -1,0 +1,16 @@
+//go:build verif
+
+// Contracts for the deductive checker in /verif (read only with -tags verif).
+
+package sm2ec
+
+// scalars of any byte length (C05): the 32-byte value handed to the point arithmetic is the scalar
+// itself when it is at most 32 bytes long, and the scalar reduced modulo the group order otherwise -
+// over the assumed math/big arithmetic (ghost integer values)
+//@ func (*sm2Curve).normalizeScalar property C05
+//@   requires curve != nil && curve.params != nil && curve.params.N != nil && ghost(bigv, curve.params.N) > 1 && BITLEN(objof(curve.params.N)) == 256
+//@   let V := BEV(arr(scalar), offof(scalar), len(scalar))
+//@   ensures len(result) == 32
+//@   ensures len(scalar) <= 32 ==> BEV(arr(result), offof(result), 32) == V
+//@   ensures len(scalar) > 32 ==> BEV(arr(result), offof(result), 32) == V % ghost(bigv, curve.params.N)
+//@   modifies nothing
